@@ -147,7 +147,7 @@ def post_c11nostd(work, reports, ctx):
     mism = 0
     viols = {}
     import array
-    sub = 'c12' if any(r.get('property') == 'c12' for r in reports) else 'c11'
+    sub = next((x for x in ('c12', 'c20') if any(r.get('property') == x for r in reports)), 'c11')
     for sh in sorted(set(logs['nstd']) & set(logs['nstd_std'])):
         a = array.array('Q')
         a.frombytes(open(logs['nstd'][sh], 'rb').read())
@@ -172,7 +172,9 @@ def post_c11nostd(work, reports, ctx):
                 outs[fl] = q.stdout.strip()
             x, y = outs['nstd'], outs['nstd_std']
             fx, fy = x.split('\t'), y.split('\t')
-            if len(fx) == 8:  # the SignedDuration float conversions (C12)
+            if sub == 'c20':
+                cls = 'std-and-no-std-builds-disagree/TimeZone-handle-program'
+            elif len(fx) == 8:  # the SignedDuration float conversions (C12)
                 names = ['index', 'input', 'try_from_secs_f64', 'try_from_secs_f32', 'as_secs_f64', 'as_secs_f32', 'mul_f64', 'div_f64']
                 which = next((names[k] for k in range(8) if fx[k:k + 1] != fy[k:k + 1]), '?')
                 cls = f'std-and-no-std-builds-disagree/SignedDuration::{which}'
@@ -187,7 +189,7 @@ def post_c11nostd(work, reports, ctx):
             'violations_total': mism, 'violations': list(viols.values()), 'inconclusive': inconclusive, 'notes': []}
 
 
-POSTS = {'c05diff': post_c05diff, 'c18diff': post_c18diff, 'c11nostd': post_c11nostd, 'c12nostd': post_c11nostd}
+POSTS = {'c05diff': post_c05diff, 'c18diff': post_c18diff, 'c11nostd': post_c11nostd, 'c12nostd': post_c11nostd, 'c20nostd': post_c11nostd}
 
 COMMON_ASSUME = [
     'reference models in /verif/harness/src/{cal,tzref,arith}.rs are the trusted base; cal is cross-checked odometer vs Hinnant over the full range at start-up',
@@ -566,23 +568,27 @@ PROPS['C19'] = dict(
 
 PROPS['C20'] = dict(
     sub='c20',
-    quick=[S('mon'), S('mondbg', 'scale_pct=50'), S('static', 'scale_pct=25', 'fixed_stride=7'), S('asan', 'scale_pct=25', 'fixed_stride=7'), S('tsan', 'scale_pct=10', 'fixed_stride=97', shards=8),
+    # ways of dying that are what C20 forbids (anything else that kills a shard stays inconclusive)
+    crash_classes={'log': [(r'invalid time zone repr tag', 'TimeZone/invalid-repr-tag'), (r'misaligned pointer dereference|unsafe precondition\(s\) violated', 'TimeZone/unsafe-precondition-violated')],
+                   'signals': {11: 'SIGSEGV', 7: 'SIGBUS', 4: 'SIGILL'}},
+    post=['c20nostd'],
+    quick=[S('nstd', 'n=40000'), S('nstd_std', 'n=40000'), S('mon'), S('mondbg', 'scale_pct=50'), S('static', 'scale_pct=25', 'fixed_stride=7'), S('asan', 'scale_pct=25', 'fixed_stride=7'), S('tsan', 'scale_pct=10', 'fixed_stride=97', shards=8),
            S('vg', 'programs=12', 'steps=80', 'fixed_stride=997', shards=16, timeout=1500), S('miri', 'programs=2', 'small', shards=16, miri_seeds='0..2', timeout=1500),
            S('miri32', 'programs=1', 'small', 'fixed_stride=499', shards=16, timeout=1500)],
-    thorough=[S('mon'), S('mondbg'), S('static', 'scale_pct=25'), S('asan', 'scale_pct=25'), S('tsan', 'scale_pct=10', 'fixed_stride=7'),
+    thorough=[S('nstd', 'n=1000000'), S('nstd_std', 'n=1000000'), S('mon'), S('mondbg'), S('static', 'scale_pct=25'), S('asan', 'scale_pct=25'), S('tsan', 'scale_pct=10', 'fixed_stride=7'),
               S('vg', 'programs=150', 'steps=120', 'fixed_stride=97', shards=16, timeout=14000), S('miri', 'programs=12', 'small', shards=16, miri_seeds='0..8', timeout=14000),
               S('miri32', 'programs=6', 'small', 'fixed_stride=13', shards=16, timeout=14000)],
     rule='all 187,199 fixed offsets: TimeZone::fixed -> to_fixed_offset / to_offset at 4 instants / clone == original / != neighbour / tag and no reference count (hook H3); '
          'seeded programs of up to 200 steps (60 under Miri) over a pool of 12 slots and the kinds UTC, unknown, fixed(o), POSIX, TZif from bytes, database lookup, static tz::get! ("static" build): new, clone into {plain, Box, Vec of 1..3, Zoned}, drop, ==, derived Zoned arithmetic, sharing with 2..4 scoped threads that clone+query+drop plus one that takes a clone by value and returns it; '
          'after every step: every live handle answers exactly as when its zone was created (4 offsets, name, abbreviation, tag), Arc strong count (H3) == model count for every heap zone, allocator monitor (feature allocmon: footprint of every heap zone; premature free, double free, not freed after last drop), equality reflexive/symmetric/clone-stable and equal exactly for the same value. '
-         'The same workload without the allocator monitor under AddressSanitizer+LeakSanitizer, ThreadSanitizer, valgrind memcheck (leak-check=full), Miri, and Miri for a 32-bit target (i686: the tagged pointer packs the fixed offset into pointer bits). distinct_nontrivial = distinct programs',
-    floors={'quick': {'fixed_offsets': 187199, 'programs': 5000, 'heap_zones_created': 50000, 'footprint_blocks_tracked': 100000},
-            'thorough': {'fixed_offsets': 187199, 'programs': 400000, 'heap_zones_created': 4000000, 'footprint_blocks_tracked': 1000000}},
+         'The same workload without the allocator monitor under AddressSanitizer+LeakSanitizer, ThreadSanitizer, valgrind memcheck (leak-check=full), Miri, and Miri for a 32-bit target (i686: the tagged pointer packs the fixed offset into pointer bits). distinct_nontrivial = distinct programs. Stages nstd/nstd_std (harness-nostd): seeded programs over the handle kinds that exist without std (UTC, fixed, POSIX, TZif from bytes) — create, clone, drop, query through clones, compare, Debug — against jiff built without and with its std feature; the recorded per-program results must be identical. The allocator monitor never over-aligns: blocks with an alignment request <= 8 sit at addresses that are 8 modulo 16',
+    floors={'quick': {'std_nostd_results_compared': 1200000, 'fixed_offsets': 187199, 'programs': 5000, 'heap_zones_created': 50000, 'footprint_blocks_tracked': 100000},
+            'thorough': {'std_nostd_results_compared': 30000000, 'fixed_offsets': 187199, 'programs': 400000, 'heap_zones_created': 4000000, 'footprint_blocks_tracked': 1000000}},
     assumptions=COMMON_ASSUME + ['"answers correctly" for a live handle = answers exactly as recorded when its zone was created (C03/C04 own the correctness of the answers themselves)',
                                  'the allocator monitor remembers addresses as integers and is compiled out of the ASan/valgrind/Miri runs so that it cannot hide leaks from them; it is self-tested at start-up (a duplicated handle dropped, a handle leaked)',
                                  'red-zone tools miss non-adjacent overflows and reuse of freed memory that lands in live memory; the allocator monitor and Miri cover those for this small unsafe surface'],
     level_text='Program-model monitoring of the real TimeZone representation: seeded handle programs checked after every step against recorded answers, the Arc strong count (hook) and an allocator monitor that knows each zone\'s heap footprint; all fixed offsets exhaustively; the same programs under ASan/LSan, TSan, valgrind and Miri.',
     level_note='Trusted base: the program model and the allocator monitor in harness/src/{c20,allocmon}.rs, hook H3 in /repo (cfg jiff_verif). Programs are sampled, the fixed-offset space is enumerated.',
-    technique='runtime monitoring of seeded handle programs: answer/refcount/allocator-footprint monitors after every step (hooks + counting global allocator), exhaustive fixed offsets, AddressSanitizer+LeakSanitizer, ThreadSanitizer, valgrind memcheck, Miri (64-bit and i686 targets)',
+    technique='runtime monitoring of seeded handle programs: answer/refcount/allocator-footprint monitors after every step (hooks + counting global allocator), exhaustive fixed offsets, AddressSanitizer+LeakSanitizer, ThreadSanitizer, valgrind memcheck, Miri (64-bit and i686 targets); a never-over-aligning allocator; offline differential of handle programs between builds of jiff with and without its std feature',
     design_ref='DESIGN.md section 4, C20',
 )
